@@ -11,6 +11,9 @@ import VmMem.Model.Copy
 import VmMem.Model.Volatile
 import VmMem.Model.Io
 import VmMem.Model.Guest
+import VmMem.Model.Construct
+import VmMem.Model.Lifetime
+import VmMem.Model.Atomic
 import Driver.Proto
 namespace Driver
 open VmMem
@@ -27,6 +30,8 @@ structure St where
   gms : Array (Option GMem) := #[]
   pend : Array (List Region) := #[]          -- regions collected for `g.build`
   regs : Array (Option Mem) := #[]           -- region id ↦ its memory: maps derived by insert/remove share regions (`Arc`)
+  life : Lifetime.St := {}
+  atom : Atomic.St := Atomic.init 0
   rds : Array (Option Reader) := #[]
   wrs : Array (Option Writer) := #[]
 
@@ -485,6 +490,71 @@ def stepGuest1 (st : St) (op : String) (kv : KV) : St × String :=
 
 def stepGuest (st : St) (op : String) (kv : KV) : St × String := stepGuest1 st op kv
 
+/-! ### construction (C15), lifetime (C12), replaceable map (C11) -/
+def fmtBErr : Construct.BErr → String
+  | .invalidOffsetLength => "err offlen" | .invalidPointer => "err pointer" | .mapFixed => "err mapfixed"
+  | .mappingPastEof => "err pasteof" | .mmapFailed => "err mmap" | .invalidGuestRegion => "err invalidregion"
+  | .invalidFileOffset => "err nofile" | .mmapFlags w => s!"err xenflags {w}" | .ioctlFailed => "err ioctl"
+
+def optNat (kv : KV) (k : String) : Option Nat := if kv.str k = "none" || kv.str k = "" then none else kv.nat? k
+
+def stepConstruct (op : String) (kv : KV) : String :=
+  let file : Option Construct.FileReq := match optNat kv "flen" with
+    | some l => some { fileLen := l, start := kv.nat "fstart" } | none => none
+  match op with
+  | "k.build" =>
+    let r : Construct.BuildReq := { size := kv.nat "size", prot := kv.nat "prot", flags := kv.nat "flags", file := file, rawPtr := optNat kv "raw" }
+    let kernel := if kv.nat "kernel" = 1 then some 0 else none
+    match Construct.build r (kv.nat "page") kernel with
+    | (.ok b, called) => s!"ok size={b.size} prot={b.prot} flags={b.flags} fstart={match b.fileStart with | some x => toString x | none => "none"} owned={b.owned} called={called}"
+    | (.error e, called) => s!"{fmtBErr e} called={called}"
+  | "k.region" =>
+    match Construct.guestRegionNew { addr := 0, size := kv.nat "size", prot := 0, flags := 0, fileStart := none, owned := true } (kv.nat "base") with
+    | .ok _ => "ok" | .error e => fmtBErr e
+  | "k.xenflags" => s!"{Construct.xenFlagsAccepted (BitVec.ofNat 32 (kv.nat "w"))}"
+  | "k.xen" =>
+    let r : Construct.XenReq := { size := kv.nat "size", file := file, flags := optNat kv "flags", xenFlags := BitVec.ofNat 32 (kv.nat "w") }
+    match Construct.xenValidate r with | .ok _ => "ok" | .error e => fmtBErr e
+  | _ => "bad-op"
+
+def fmtLife (s : Lifetime.St) : String :=
+  "ok " ++ ",".intercalate (s.maps.map fun m => s!"{m.rid}:{m.mapped}")
+
+def stepLife (st : St) (op : String) (kv : KV) : St × String :=
+  let hid := kv.nat "hid"
+  let lop : Option Lifetime.Op := match op with
+    | "l.create" => some (.create hid (kv.nat "rid") (kv.nat "owned" = 1))
+    | "l.build" => some (.build hid (kv.natList "parts"))
+    | "l.insert" => some (.insert hid (kv.nat "src") (kv.nat "reg"))
+    | "l.remove" => some (.remove hid (kv.nat "hreg") (kv.nat "src") (kv.nat "rid"))
+    | "l.clone" => some (.clone hid (kv.nat "src"))
+    | "l.drop" => some (.drop hid)
+    | _ => none
+  match op, lop with
+  | "l.reset", _ => ({ st with life := {} }, "ok ")
+  | _, some o => let s' := Lifetime.step st.life o; ({ st with life := s' }, fmtLife s')
+  | _, none => (st, "bad-op")
+
+def fmtAtom (s : Atomic.St) (ret : Option Nat) : String :=
+  let r := match ret with | some x => toString x | none => "-"
+  let owners := ",".intercalate (s.owners.map fun (o, m) => s!"{o}:{m}")
+  let freed := ",".intercalate ((s.freed.mergeSort (· ≤ ·)).map toString)
+  s!"ok ret={r} cur={s.cur} locked={s.lock.isSome} owners={owners} freed={freed}"
+
+def stepAtom (st : St) (op : String) (kv : KV) : St × String :=
+  let aop : Option Atomic.Step := match op with
+    | "t.snapshot" => some (.snapshot (kv.nat "o"))
+    | "t.clone" => some (.cloneOwner (kv.nat "o") (kv.nat "src"))
+    | "t.drop" => some (.dropOwner (kv.nat "o"))
+    | "t.lock" => some (.lock (kv.nat "t"))
+    | "t.replace" => some (.replace (kv.nat "t") (kv.nat "new"))
+    | "t.unlock" => some (.unlock (kv.nat "t"))
+    | _ => none
+  match op, aop with
+  | "t.init", _ => let s := Atomic.init (kv.nat "m"); ({ st with atom := s }, fmtAtom s none)
+  | _, some a => let (s', r) := Atomic.step st.atom a; ({ st with atom := s' }, fmtAtom s' r)
+  | _, none => (st, "bad-op")
+
 def step (st : St) (line : String) : St × String :=
   let (op, kv) := parseLine line
   if op = "" then (st, "")
@@ -494,6 +564,9 @@ def step (st : St) (line : String) : St × String :=
   else if op.startsWith "e." then (st, stepEndian op kv)
   else if op.startsWith "b." then stepBitmap st op kv
   else if op.startsWith "p." then stepProgram st op kv
+  else if op.startsWith "k." then (st, stepConstruct op kv)
+  else if op.startsWith "l." then stepLife st op kv
+  else if op.startsWith "t." then stepAtom st op kv
   else if op.startsWith "s." then stepSlice st op kv
   else if op.startsWith "rd." || op.startsWith "wr." then stepStream st op kv
   else if op.startsWith "g." || op.startsWith "gr." then stepGuest st op kv
